@@ -13,6 +13,10 @@ import (
 // run.go (shortID constants) into lean/NV/Gen/ClientInfo.lean.  Anything not recognised falls back
 // to an alias of the hand model (`FALLBACK …`), leaving the tie to the correspondence check.
 
+// hdrAlias: name of the http.Header parameter of a helper whose statements are being read in
+// place of its call (`setHeaders(req.Header, ci)`).
+var hdrAlias string
+
 // headerSet matches `req.Header.Set(k, v)` and returns its arguments.
 func headerSet(s ast.Stmt) (k string, v ast.Expr, ok bool) {
 	es, isExpr := s.(*ast.ExprStmt)
@@ -27,9 +31,13 @@ func headerSet(s ast.Stmt) (k string, v ast.Expr, ok bool) {
 	if !isSel || sel.Sel.Name != "Set" {
 		return
 	}
-	inner, isSel2 := sel.X.(*ast.SelectorExpr)
-	if !isSel2 || inner.Sel.Name != "Header" {
-		return
+	if id, isID := sel.X.(*ast.Ident); isID && hdrAlias != "" && id.Name == hdrAlias {
+		// `h.Set(k, v)` inside a helper that was handed `req.Header` as h
+	} else {
+		inner, isSel2 := sel.X.(*ast.SelectorExpr)
+		if !isSel2 || inner.Sel.Name != "Header" {
+			return
+		}
 	}
 	k, ok = strLit(call.Args[0])
 	return k, call.Args[1], ok
@@ -225,7 +233,40 @@ func genClientInfo() {
 		if fd == nil || fd.Recv == nil {
 			return fmt.Errorf("DOH.resolve not found")
 		}
-		for idx, s := range fd.Body.List {
+		// a call `helper(req.Header, ci)` of a function of this file stands for the helper's statements
+		var body []ast.Stmt
+		for _, s := range fd.Body.List {
+			inlined := false
+			if es, ok := s.(*ast.ExprStmt); ok {
+				if c, ok := es.X.(*ast.CallExpr); ok {
+					if id, ok := c.Fun.(*ast.Ident); ok {
+						for ai, a := range c.Args {
+							if nodeText(a) != "req.Header" {
+								continue
+							}
+							if hd := findFunc(f, id.Name); hd != nil && hd.Body != nil && hd.Recv == nil {
+								var params []string
+								for _, fl := range hd.Type.Params.List {
+									for _, n := range fl.Names {
+										params = append(params, n.Name)
+									}
+								}
+								if ai < len(params) && hdrAlias == "" {
+									hdrAlias = params[ai]
+									body = append(body, hd.Body.List...)
+									inlined = true
+								}
+							}
+						}
+					}
+				}
+			}
+			if !inlined {
+				body = append(body, s)
+			}
+		}
+		defer func() { hdrAlias = "" }()
+		for idx, s := range body {
 			if rs, ok := s.(*ast.RangeStmt); ok {
 				if sel, ok := rs.X.(*ast.SelectorExpr); ok && sel.Sel.Name == "ExtraHeaders" {
 					rangeIdx = idx
